@@ -389,6 +389,8 @@ def compare(it, op, a, b, node):
             r = a.name == b.name
         elif isinstance(a, VObj) and isinstance(b, VObj):
             r = a.inst is b.inst
+        elif isinstance(a, VFunc) and isinstance(b, VFunc) and a.self_val is None and b.self_val is None and a.func is not None and b.func is not None:
+            r = a.func is b.func  # two plain (unbound) functions of the repository: the same definition or not
         elif isinstance(a, (VList, VDict)) and isinstance(b, (VList, VDict)):
             r = a.obj is b.obj  # a list / dictionary is the object that was created; every other one is another object
         elif isinstance(a, VUnknown) and isinstance(b, VUnknown) and a.kind == b.kind and a.kind in ("dtype", "device", "layout") and a.tag == b.tag:
